@@ -115,7 +115,8 @@ mod verif_c04 {
             fn $name() {
                 let client = fixed_client($n);
                 let b = client.count_with_tags("the.key", 7i64);
-                let b = b.with_tag("ck", "cv").with_tag_value("bare");
+                // the second per-call tag repeats a key already present (a default key when there is one)
+                let b = b.with_tag(if $n >= 1 { "k0" } else { "ck" }, "cv").with_tag_value("bare");
                 let over: bool = kani::any();
                 let b = if over { b.with_container_id("percall") } else { b };
                 match b.repr {
@@ -123,7 +124,7 @@ mod verif_c04 {
                         assert!(defaults_first(f, &client, 2), "[C04] default tags stay first, in order, when per-call tags are added");
                         let (k1, v1) = f.tags[$n];
                         let (k2, v2) = f.tags[$n + 1];
-                        assert!(matches!(k1, Some(k) if same(k, "ck")) && same(v1, "cv") && k2.is_none() && same(v2, "bare"), "[C04] per-call tags follow the defaults in the order they were added");
+                        assert!(matches!(k1, Some(k) if k.len() == 2) && same(v1, "cv") && k2.is_none() && same(v2, "bare"), "[C04] per-call tags follow the defaults in the order they were added, also when a key repeats an earlier one (nothing is merged or replaced)");
                         if over {
                             assert!(matches!(f.container_id, Some(c) if same(c, "percall")), "[C04] a per-call container id replaces the default for that call");
                         } else {
@@ -147,6 +148,25 @@ mod verif_c04 {
     percall!(c04_percall_1, 1);
     //@H name=c04_percall_2 props=C04,C20 tier=thorough bound="2 default tags + 2 per-call tags" fn=MetricBuilder::with_tag,with_tag_value,with_container_id :: per-call tags after 2 default tags
     percall!(c04_percall_2, 2);
+
+    //@H name=c04_duplicate_keys props=C04,C20 bound="3 per-call tags, two with the same key" fn=MetricBuilder::with_tag :: tags are a SEQUENCE: a key that repeats an earlier key is appended, the earlier tag stays
+    #[kani::proof]
+    #[kani::unwind(5)]
+    fn c04_duplicate_keys() {
+        let client = fixed_client(0);
+        let b = client.count_with_tags("the.key", 7i64).with_tag("env", "a").with_tag("env", "bb").with_tag_value("c");
+        match b.repr {
+            BuilderRepr::Success(ref f, _) => {
+                assert!(f.tags.len() == 3, "[C04] every tag added is carried: a repeated key does not replace the earlier tag");
+                let (k0, v0) = f.tags[0]; let (k1, v1) = f.tags[1];
+                assert!(k0.is_some() && v0.len() == 1 && k1.is_some() && v1.len() == 2, "[C04] in the order they were added");
+            }
+            BuilderRepr::Error(..) => assert!(false, "[C03] never rejected"),
+        }
+        kani::cover!(true, "end");
+        std::mem::forget(b);
+        std::mem::forget(client);
+    }
 
     //@H name=c04_incr_decr props=C01,C04,C20 bound="2 default tags" fn=CountedExt::incr_with_tags,decr_with_tags :: incr/decr are count_with_tags(key, +1/-1): same decorations
     #[kani::proof]
